@@ -262,37 +262,22 @@ func runC02(r *Run) {
 			return fmt.Sprintf("%s - %s <= %d", name(a.T), name(bb.T), c)
 		}
 		// reject guards: Ifs one of whose successors is dominated-only by error returns
-		idx := errorResultIndex(dm)
+		_ = errorResultIndex(dm)
 		isRejectBlock := func(b *ssa.BasicBlock) bool {
 			if len(b.Preds) != 1 {
 				return false
 			}
-			n := 0
-			for _, x := range dm.Blocks {
-				if !b.Dominates(x) {
-					continue
-				}
-				for _, s := range x.Succs {
-					if !b.Dominates(s) {
-						return false
-					}
-				}
-				if ret, ok := x.Instrs[len(x.Instrs)-1].(*ssa.Return); ok {
-					c := &PathCtx{K: newKeyer(), assign: map[string]bool{}, phiSel: map[*ssa.Phi]ssa.Value{}, P: p}
-					if c.NilState(ret.Results[idx]) != -1 {
-						return false
-					}
-					n++
-				}
-			}
-			return n > 0
+			// every path from b ends in a return of a non-nil error (decided per path: the error may
+			// travel through the merged result of a normalised helper)
+			ok, _, _ := allPathsReject(p, dm, b)
+			return ok
 		}
 		got := map[string]ssa.Instruction{}
 		var loopCond string
 		for _, b := range dm.Blocks {
 			iff, ok := b.Instrs[len(b.Instrs)-1].(*ssa.If)
-			if !ok {
-				continue
+			if !ok || fullyThreaded(b) {
+				continue // (a dispatch on the merged result of a normalised helper is not a guard of its own)
 			}
 			switch {
 			case isRejectBlock(b.Succs[0]):
@@ -347,7 +332,7 @@ func runC02(r *Run) {
 			step := linExpr{C: 4, Terms: map[string]int64{}}.add(le.Eval(pCall), 1)
 			for i, e := range off.Edges {
 				pred := off.Block().Preds[i]
-				if !off.Block().Dominates(pred) {
+				if !blockDominates(off.Block(), pred) {
 					if c, ok := constInt(e); !ok || c != 0 {
 						lp.Violation(dm, instrPos(off), "offset does not start at 0", "")
 					}
@@ -380,7 +365,7 @@ func runC02(r *Run) {
 		readValue := p.Meth("MessageType", "ReadValue")
 		okType := false
 		eachInstr(dm, func(b *ssa.BasicBlock, i int, in ssa.Instruction) {
-			if c, ok := in.(*ssa.Call); ok && callsFn(c, readValue) && len(c.Call.Args) == 2 && tCall != nil && c.Call.Args[1] == ssa.Value(tCall) {
+			if c, ok := in.(*ssa.Call); ok && callsFn(c, readValue) && len(c.Call.Args) == 2 && tCall != nil && canonPhi(c.Call.Args[1]) == ssa.Value(tCall) {
 				okType = true
 			}
 		})
@@ -497,7 +482,7 @@ func runC02(r *Run) {
 				if c, ok := okv.(*ssa.Const); ok && c.Value != nil && c.Value.String() == "true" {
 					isTrue = true
 				}
-				inMatch := ml.eqEdge().Dominates(ret.Block()) && len(ml.eqEdge().Preds) == 1
+				inMatch := blockDominates(ml.eqEdge(), ret.Block()) && len(ml.eqEdge().Preds) == 1
 				if isTrue != inMatch {
 					gt.Violation(getA, instrPos(ret), "found flag", "the found result does not coincide with a type match")
 				}
@@ -590,7 +575,7 @@ func runC02(r *Run) {
 				for _, ret := range returnsOf(contains) {
 					c, isC := ret.Results[0].(*ssa.Const)
 					isTrue := isC && c.Value != nil && c.Value.String() == "true"
-					inMatch := ml.eqEdge().Dominates(ret.Block()) && len(ml.eqEdge().Preds) == 1
+					inMatch := blockDominates(ml.eqEdge(), ret.Block()) && len(ml.eqEdge().Preds) == 1
 					if !isC || isTrue != inMatch {
 						gt.Violation(contains, instrPos(ret), "membership result", "Contains must be true exactly on a type match")
 					}
@@ -648,7 +633,7 @@ func runC02(r *Run) {
 				fe.Violation(forEach, instrPos(st), "iteration", why)
 				continue
 			}
-			if !(ml.eqEdge().Dominates(st.Block()) && len(ml.eqEdge().Preds) == 1) {
+			if !(blockDominates(ml.eqEdge(), st.Block()) && len(ml.eqEdge().Preds) == 1) {
 				fe.Violation(forEach, instrPos(st), "narrowing without a type match", "the callback is invoked for attributes of other types")
 			}
 			for _, ex := range ml.Loop.Exits() {
@@ -842,7 +827,7 @@ func earlyExit(ml *matchLoop) ssa.Instruction {
 		if ex[0] == ml.Loop.Header {
 			continue
 		}
-		if ex[1] == eq || eq.Dominates(ex[1]) {
+		if ex[1] == eq || blockDominates(eq, ex[1]) {
 			continue
 		}
 		return ex[0].Instrs[len(ex[0].Instrs)-1]
